@@ -235,8 +235,25 @@ CHECKS.append({
             "C16.native_irregular job (every irregularity at every location of two generated decks; never counted as proved).",
 })
 
+CHECKS.append({
+    "property_id": "C01",
+    "technique": "contract-based deductive verification (pyvc over the real OPC walk/writer code: recursive-procedure contracts for the two depth-first walks, loop invariants with ghost sets, dicts and yield logs as z3 arrays; z3) + bounded native round trips",
+    "category": "proof",
+    "text": "Loader walk _PackageLoader._xml_rels.load_rels verified as a recursive procedure against its own contract (arbitrary source, arbitrary visited set; "
+            "recursive calls taken at the contract with the precondition checked at the call): keys of xml_rels = visited names, contain the root, closed under "
+            "internal relationships (completeness), all reached from the root (soundness). OpcPackage.iter_rels.walk_rels likewise as a recursive generator with a "
+            "ghost yield log: every relationship of the package and of every visited part yielded exactly once, every internal target visited. iter_parts: every "
+            "internal target yielded exactly once. Writer: content-type lemma over _ContentTypesItem._defaults_and_overrides (reader lookup of what is written gives "
+            "each part its own type, any number of parts), _write_parts (blob under own name, rels item iff relationships, nothing else, in order), _write and the "
+            "two fixed streams. Relationship reading is C16's load_from_xml contract.",
+    "note": "Assumed: PackURI arithmetic as functions (C19), str.lower uninterpreted+idempotent, part names distinct case-insensitively, zipfile/lxml. "
+            "Termination of the walks not proved. sorted()-based emission in _ContentTypesItem._xml and _Relationships.xml, payload bytes, XML equivalence and "
+            "second-save identity are covered by the bounded C01.native_roundtrip job only (150/2500 random packages; never counted as proved). "
+            "F5 (two .bin parts with different default content types) repaired by a fix: commit.",
+})
+
 NOT_APPLICABLE = [
     {"property_id": p, "reason": _PENDING}
-    for p in ["C01", "C02", "C03", "C07", "C12",
+    for p in ["C02", "C03", "C07", "C12",
               ]
 ]
